@@ -178,8 +178,14 @@ def tlc_programs(ctx, exhaustive_cfg, sim_cfg=None, sim_num=0, sim_depth=14, cap
 
     states = []
     seen_ex = set()
-    for cfg in ([exhaustive_cfg] if isinstance(exhaustive_cfg, str) else list(exhaustive_cfg)):
-        res = core.run_tlc("Script", cfg, timeout=3000)
+    cfgs = [exhaustive_cfg] if isinstance(exhaustive_cfg, str) else list(exhaustive_cfg)
+    # the configurations are independent: run them side by side (a small model does not use 16 TLC workers well)
+    from concurrent.futures import ThreadPoolExecutor
+
+    par = min(4, len(cfgs))
+    with ThreadPoolExecutor(max_workers=par) as ex:
+        results = list(ex.map(lambda c: core.run_tlc("Script", c, timeout=3000, workers=max(2, core.NCPU // par)), cfgs))
+    for cfg, res in zip(cfgs, results):
         ctx.tlc(res, cfg)
         if not res.ok:
             raise core.MachineryError(f"TLC reports {res.violated} on {cfg}:\n{res.out[-2000:]}")
